@@ -106,6 +106,15 @@ def run(prop, tier, replay=None):
         mc["generated"] += pmc["generated"]
         acc += extra["real_process_accepted"]
         total += extra["real_process_scripts"]
+    if prop == "C01" and not replay:
+        # the property's parenthesis "a filesystem change under a watched path": real inotify / poll
+        import fsrealcheck
+        fviol, extra, fstats = fsrealcheck.run(prop, tier, rng)
+        violations += fviol
+        stats["distinct"] += fstats["distinct"]
+        stats["generated"] += fstats["generated"]
+        acc += extra["real_fs_accepted"]
+        total += extra["real_fs_scripts"]
     if prop == "C15" and not replay:
         # the clause about errors raised from the watcher's own callback (event-queue overflow, unreadable
         # events): the real fs worker with a fake watcher whose callback fires bursts against a small queue
